@@ -420,6 +420,14 @@ def mech_missing(o, p):
         return donor_fs and any(e.side == 2 for e in h)
     if all(fusion_both_sides(bb, h) for bb, h in W):
         return 'KF-FUSION-ACCEPTOR-VAR'
+    def circ_ref_touching(bb, h):
+        # the VARIANT-FREE reading of a circRNA whose backbone carries two records that touch or overlap (gap <= 1 nt)
+        if not bb.circular or h:
+            return False
+        es = list(bb.edits)
+        return any(a is not b and a.start <= b.start and a.end >= b.start - 1 for a in es for b in es)
+    if all(circ_ref_touching(bb, h) for bb, h in W):
+        return 'KF-CIRC-REF-ADJACENT'
     flags = o['flags']
     def endnf(bb):
         # a fusion whose donor is an mRNA_end_NF transcript repeats the donor-only peptides of that transcript
